@@ -36,7 +36,7 @@ def plan(tier):
 
 def required(tier):
     return ["executions", "window_reached_executions", "forced_window_executions", "random_plan_executions",
-            "timeouts_with_results_in_flight", "multi_group_executions", "process_probe_events", "baseline_ok", "big_payload_cases", "round_size_cases"]
+            "timeouts_with_results_in_flight", "multi_group_executions", "process_probe_events", "baseline_ok", "big_payload_cases", "round_size_cases", "pass_through_record_cases"]
 
 
 # the trace-specification probe is anchored on a source line of realign_gaf; if a refactoring removed the
@@ -113,11 +113,16 @@ def run_case(ctx, rng, index, casedir):
     if sized:
         nrec = rng.choice([64, 100, 128, 129, 192, 200, 256, 320])
         sit["round_size_cases"] += 1
-    big_payload = index % 10 == 7  # results larger than the 64 KiB pipe buffer (feeder threads block on the pipe)
+    long_reads = 0
+    if index % 16 == 9:
+        # records that are written back unchanged (> 60 000 read bases) among ordinary ones, at any position
+        nrec, long_reads, sized = rng.randint(6, 24), rng.choice([1, 2]), False
+        sit["pass_through_record_cases"] += 1
+    big_payload = index % 10 == 7 and not long_reads  # results larger than the 64 KiB pipe buffer (feeder threads block on the pipe)
     if big_payload:
         nrec = rng.randint(2, 6)
         sit["big_payload_cases"] += 1
-    w = RR.make_workload(rng, casedir, nrec, big_tag=rng.choice([70_000, 200_000]) if big_payload else None)
+    w = RR.make_workload(rng, casedir, nrec, big_tag=rng.choice([70_000, 200_000]) if big_payload else None, long_reads=long_reads)
     # baseline: single core, unperturbed, default batch size
     base_out = os.path.join(casedir, "base.gaf")
     base = RR.run_driver(casedir, "base", ["realign", w.gaf, w.gfa, w.fasta, "-o", base_out, "-c", "1"],
